@@ -255,3 +255,15 @@ func ctrInv(s *seqCounters) bool {
 //@   callsite fullRange requires allTracks: arg_nrTracks == sg._nrTracks
 //@   callsite modifySegmentTemplate requires completeRange: arg_firstNr == firstNr && arg_lastNr == lastNr && newLatestSeqNr > sg.latestSeqNr && newLatestSeqNr <= lastNr
 //@   ensures latestIsListed: result == nil ==> sg.latestSeqNr >= newLatestSeqNr
+
+// receivedSegData (channel goroutine): the divisions by the master segment duration and the
+// master timescale cannot be by zero - a panic here would terminate the receiver.
+//@ func (*channel).receivedSegData
+//@   wiring
+//@   keep divzero
+//@   callsite updateAndWriteMPD requires masterValuesSet: ch.masterTimescale != 0 && ch.masterSegDuration != 0
+
+//@ func (*channel).updateAndWriteMPD
+//@   wiring
+//@   requires ch.masterTimescale != 0
+//@   keep divzero
